@@ -267,7 +267,9 @@ def run_obligation(prop, modname, path, func, meta, param, tier, known, doc):
             rec["notes"].append("cannot parse counterexample: " + res["message"][:400])
             break
         rp = replay_call(modname, func, param, tier, args_src)
-        if rp.get("status") == "violated" and str(rp.get("result", "")).lstrip("'\"").startswith("harness-error"):
+        _res = str(rp.get("result", "")).lstrip("'\"")
+        if rp.get("status") == "violated" and (_res.startswith("harness-error") or _res.startswith("raises Unsupported")
+                                               or "Unsupported(" in _res):
             verdict = "harness-error"
             rec["notes"].append("%s(%s): %s" % (func, args_src, rp.get("result")))
             break
